@@ -73,8 +73,47 @@ func c04(args []string) int {
 		var hookRuns, funcRuns int
 		lh := base.Hook(cntHook{&hookRuns})
 		cntFunc := func(e *zerolog.Event) { funcRuns++ }
+		var carried *zerolog.Logger // derived while the previous global level was in force
 		for gl := -128; gl <= 127; gl++ {
 			zerolog.SetGlobalLevel(zerolog.Level(gl))
+			// the global level counts when an event is logged, not when its logger was derived: a logger derived under
+			// another global level (lower, and - at the wrap-around of this loop - higher) gates like any other
+			if carried != nil {
+				if got := carried.GetLevel(); got != zerolog.Level(lg) {
+					viol("gate-getlevel", fmt.Sprintf("Level(%d).GetLevel() = %d for a logger derived while the global level was %d", lg, got, gl-1), nil)
+				}
+				for _, ev := range []int{lg - 1, lg, lg + 1, gl - 1, gl, gl + 1, 127, -128} {
+					if ev < -128 || ev > 127 {
+						continue
+					}
+					named++
+					w.n = 0
+					carried.WithLevel(zerolog.Level(ev)).Msg("m")
+					if want := should(ev, lg, gl); (w.n == 1) != want {
+						viol("gate-derived-under-other-global", fmt.Sprintf("logger level %d (logger derived under global level %d), global level now %d, WithLevel(%d): writes=%d, expected written=%v", lg, gl-1, gl, ev, w.n, want), nil)
+					}
+				}
+			}
+			{
+				c := zerolog.New(w).Level(zerolog.Level(lg))
+				carried = &c
+			}
+			if gl == 127 {
+				// derived under the highest global level, used under the lowest
+				zerolog.SetGlobalLevel(-128)
+				for _, ev := range []int{lg - 1, lg, lg + 1, 0} {
+					if ev < -128 || ev > 127 {
+						continue
+					}
+					named++
+					w.n = 0
+					carried.WithLevel(zerolog.Level(ev)).Msg("m")
+					if want := should(ev, lg, -128); (w.n == 1) != want {
+						viol("gate-derived-under-other-global", fmt.Sprintf("logger level %d (logger derived under global level 127), global level now -128, WithLevel(%d): writes=%d, expected written=%v", lg, ev, w.n, want), nil)
+					}
+				}
+				zerolog.SetGlobalLevel(zerolog.Level(gl))
+			}
 			for ev := -128; ev <= 127; ev++ {
 				triples++
 				want := should(ev, lg, gl)
